@@ -270,18 +270,6 @@ Fixpoint ext_add_create (c : cfg) (v : jval) (p : list sseg) (x : jval) : option
     end
   end.
 
-(* both locations exist, neither contains the other: the two values change places *)
-Definition ext_swap (c : cfg) (dv : jval) (from path : list sseg) : option jval :=
-  match jget c dv from, jget c dv path with
-  | Some a, Some b =>
-    if seg_prefix from path || seg_prefix path from then None
-    else match jmod c dv from (add_here c b) with
-         | Some d1 => jmod c d1 path (add_here c a)
-         | None => None
-         end
-  | _, _ => None
-  end.
-
 (* ================================================================== the library's reading, complete: every operation kind.
    `lib_op` extends `rfc_op` (used with the lenient configuration) by the three documented extensions and by the operation
    code 0 (an operation object without an "op" member), exactly as _jbl_target_apply_patch treats them.  The documented
@@ -353,6 +341,19 @@ Fixpoint np_prefix (a b : list nat) : bool :=
   | [], _ => true
   | x :: a', y :: b' => Nat.eqb x y && np_prefix a' b'
   | _, _ => false
+  end.
+
+(* "Swap values of two nodes" (iwjson.h), where an exchange exists: both locations exist and neither contains the other - the two
+   values change places, everything else stays *)
+Definition ext_swap (c : cfg) (dv : jval) (from path : list sseg) : option jval :=
+  match jlocate c dv from, jlocate c dv path with
+  | Some pf, Some pc =>
+    if np_prefix pf pc || np_prefix pc pf then None
+    else match jget_at dv pf, jget_at dv pc with
+         | Some a, Some b => match jset_at dv pf b with Some d1 => jset_at d1 pc a | None => None end
+         | _, _ => None
+         end
+  | _, _ => None
   end.
 
 (* "Value increment": the sum as the library computes it (int64 two's complement wrap-around, the double operations given) *)
